@@ -71,6 +71,13 @@ CLAIMED = {
         "Trusted: Coq kernel; renderer model tied by correspondence; the context half (block parser hands the same string to the inline parser in every context) is exploration only until the block model is in (partial).",
         "DESIGN.md §3 C18",
     ),
+    "C05": (
+        "proof",
+        "Coq proofs (induction over strings on a model of mdurl.encode; case analysis on the validator) with the URL re-formatting dependency as an arbitrary function + function-level differential correspondence + producer exploration on the implementation",
+        "Theorems for ALL strings of code points: every character mdurl.encode emits is URL-safe ASCII (letters, digits, ;/?:@&=+$,-_.!~*'()# and %), hence never a blank, control, quote, angle bracket, backslash, backtick or non-ASCII character (C05_encode_alphabet, C05_url_chars_are_inert); a URL over that alphabet accepted by validateLink does not begin, case-insensitively, with vbscript: javascript: or file:, and with data: only as data:image/gif|png|jpeg|webp; (C05_validated_scheme); composed for normalizeLink = encode o reformat with reformat arbitrary (C05_emitted_url_safe). Each run: mdurl.encode and validateLink (direct and regenerated-regex forms) vs the implementation on ~3000 (quick) strings incl. every scheme spelling; and on the implementation: all hrefs/srcs on tokens and re-parsed from rendered HTML for 19 producer forms (inline, <dest>, image, autolink, reference link/image/definition, inside containers, raw <a>) x spellings x configurations, plus 'a rejected construct stays as literal text'.",
+        "Trusted: Coq kernel; encode/validateLink models tied by sampled correspondence; producers (each validates separately and backs off to text) by exploration until the inline model is in (partial); linkify producers not exercisable here (linkify-it-py absent).",
+        "DESIGN.md §3 C05",
+    ),
 }
 
 NOT_YET = {}
